@@ -42,9 +42,9 @@ def body_versioned_dict(env, K=3, V=4):
 
 
 def versioned_dict_harness(tier):
-    K, V = (3, 4) if tier == 'quick' else (5, 6)
+    K, V = (3, 4) if tier == 'quick' else (4, 5)
     return Harness('VersionedDict K=%d' % K, body_versioned_dict, params=dict(K=K, V=V), validate=50,
-                   bounds=dict(writes=K, keys=2, version_range=[-2, V]), max_paths=500000, wall_s=1500)
+                   bounds=dict(writes=K, keys=2, version_range=[-2, V]), max_paths=500000, wall_s=3000)
 
 
 def replay(blob):
